@@ -1,0 +1,11 @@
+//go:build verif
+
+package shrinker
+
+// VerifNthread reports the number of running shrinker threads.
+func (shrinkst *ShrinkerSt) VerifNthread() uint32 {
+	shrinkst.mu.Lock()
+	n := shrinkst.nthread
+	shrinkst.mu.Unlock()
+	return n
+}
